@@ -276,3 +276,19 @@ h!(q_real_coowner_thin, {
     drop(a);
     assert!(ledger_is(0, 2) && n_live() == 0);
 });
+
+h!(q_real_coowner_overaligned_borrow_clone, {
+    // the count word of an over-aligned payload is not the word in front of the data
+    let mut a = Arc::new(S33a32(kani::any()));
+    let b = a.borrow_arc().clone_arc();
+    let o = Arc::into_raw_offset(a.clone());
+    let o2 = o.clone();
+    drop(o);
+    assert!(!a.is_unique() && Arc::get_mut(&mut a).is_none(), "gate granted although two other handles exist");
+    drop(b);
+    assert!(!a.is_unique() && Arc::get_mut(&mut a).is_none(), "gate granted although an OffsetArc clone still owns the value");
+    drop(o2);
+    assert!(a.is_unique() && Arc::get_mut(&mut a).is_some(), "a sole owner was declined");
+    drop(a);
+    assert!(n_live() == 0);
+});
